@@ -43,6 +43,7 @@ func Check(err error) {
 // Fail logs the error message, so that it will be possible to improve error
 // messages in one place
 func Fail(vs ...interface{}) {
+	vhook("fail", "msg", fmt.Sprint(vs...))
 	Error.Println(vs...)
 	//Error.Println("Printing stack trace (read from bottom to find the workflow code that hit this error):")
 	//debug.PrintStack()
